@@ -1,8 +1,10 @@
 SPECIFICATION Spec
+CONSTANT CVariant = "faithful"
 CONSTANT MaxOps = 6
 VIEW view
 INVARIANT DequeLayoutFree
 INVARIANT GhostAgrees
 INVARIANT MapOrderFree
 INVARIANT BitsOffsetFree
+INVARIANT BitsStoreFree
 CHECK_DEADLOCK FALSE
